@@ -2,7 +2,10 @@
 
 package timeout
 
-import "time"
+import (
+	"container/heap"
+	"time"
+)
 
 // C12 / C13: timers.
 
@@ -45,7 +48,16 @@ func zzC12HeapStep() {
 	zzHeapInvariant("pre-state")
 	removed := -1
 	var added *future
-	switch vChoose("op", 4) {
+	switch vChoose("op", 5) {
+	case 4:
+		// the worker takes the head (as in watcher()), afterwards the fired future is cancelled: no effect on others
+		vAssume(n > 0)
+		fu := heap.Pop(cc.futures).(*future)
+		vAssert(fu == old[0], "the worker did not take the earliest future")
+		removed = 0
+		zzHeapInvariant("after the worker took the head")
+		fu.Cancel()
+		fu.Cancel()
 	case 0:
 		d := vInt64("delay")
 		vAssume(d >= -zzMaxD && d <= zzMaxD)
@@ -231,6 +243,21 @@ func zzC13Prompt() {
 		}, time.Duration(d))
 		return r
 	}
+	if vParam("SCEN") == 1 {
+		// a burst of two due futures brings up two workers, which then go idle; a short future scheduled then
+		// must still be served on time (by whichever worker stays)
+		cc.maxWorkers = 2
+		cc.idleTimeout = time.Duration(1 << 30)
+		p1, p2 := mk(0), mk(0)
+		<-p1.done
+		<-p2.done
+		vSettle()
+		vAssume(near <= 1<<20)
+		c := mk(near)
+		<-c.done
+		vReach("all-fired")
+		return
+	}
 	a := mk(far)
 	vSettle() // the dispatcher is now asleep towards the first future
 	b := mk(near)
@@ -244,4 +271,61 @@ func zzC13Prompt() {
 		<-c.done
 	}
 	vReach("all-fired")
+}
+
+// C12: the worker loop under arbitrary interference. The real watcher runs as a goroutine; every time it is
+// parked the shared queue is replaced by a fresh arbitrary one (any number of other callers and workers may have
+// acted meanwhile), the clock moves on, and either its timer fires or a wake-up token arrives. Whatever it
+// starts must be due under the lock at that moment and must be started once.
+func zzC12WatcherHavoc() {
+	cc.idleTimeout = time.Duration([]int64{zzMaxD, 1}[vChoose("idle", vParam("IDLES"))])
+	cc.maxWorkers = 2
+	cc.watchers = 2 // another worker exists: this one may retire, and no helper is spawned
+	started := 0
+	havoc := func() {
+		n := vChoose("queued", vParam("QMAX")+1)
+		fs := make(futures, n)
+		base := time.Now()
+		for i := range fs {
+			d := vInt64("fire")
+			vAssume(d >= -zzMaxD && d <= zzMaxD)
+			fu := &future{fireT: base.Add(time.Duration(d)), idx: i}
+			cnt := 0
+			fu.f = func() {
+				cnt++
+				started++
+				vAssert(cnt == 1, "a function was started twice")
+				vAssert(!time.Now().Before(fu.fireT), "a function was started before it was due")
+			}
+			fs[i] = fu
+			if i > 0 {
+				vAssume(!fs[i].fireT.Before(fs[(i-1)/2].fireT))
+			}
+		}
+		cc.futures = &fs
+	}
+	havoc()
+	exited := false
+	vSpawn("worker", func() {
+		cc.watcher()
+		exited = true
+	})
+	K := vParam("K")
+	for round := 0; round < K; round++ {
+		vSettle() // the worker is parked in its select (or has retired)
+		if exited {
+			break
+		}
+		cc.lock.Lock()
+		havoc()
+		if cc.watchers < 2 {
+			cc.watchers = 2
+		}
+		cc.lock.Unlock()
+		if vChoose("wake", 2) == 1 {
+			cc.notifyWatcher()
+		}
+	}
+	vSettle() // let the worker act on the last interference
+	vReach("rounds-done")
 }
